@@ -287,6 +287,41 @@ def bracket_width_family():
     return out
 
 
+def aggregate_family():
+    """aggregates over comprehensions with literal / empty / range iterables (the sympy rules), and loops
+    over dict views whose receiver is a call (templates compiled from nodes of the tree); found by C01's sweep"""
+    out = []
+    iters = ["[]", "()", "[1, 2]", "(1, 2, 3)", "{1, 2}", "range(4)", "range(n)", "range(2, n, 3)", "xs", "[[]]", "''"]
+    elts = ["3", "z", "z * 2", "z + n", "1 / z"]
+    for agg in ("sum", "len", "max", "any", "sorted", "list"):
+        for it in iters:
+            for e in elts[: (5 if agg == "sum" else 2)]:
+                out.append(f"import sys\nn = len(sys.argv)\nxs = sys.argv\nprint({agg}([{e} for z in {it}]))\n")
+    out += [f"import sys\nn = len(sys.argv)\nprint(sum({e} for z in {it} for w in {it2}))\n"
+            for e in ("3", "z * w") for it in iters[:6] for it2 in ("[]", "range(3)")]
+    recv = ["d", "dict(zip(g, g))", "make()", "obj.table", "{**d}"]
+    views = [".keys()", ".items()", ".values()", ""]
+    bodies = ["pass", "print(k)", "print({R}[k])", "print(k, {R}[k])", "{R}[k] = 1", "out.append({R}[k])"]
+    for r in recv:
+        for v in views:
+            for b in bodies:
+                tgt = "k, v" if v == ".items()" else "k"
+                src = ("import sys\ng = sys.argv\nd = dict(zip(g, g))\nout = []\n\n\ndef make():\n    return d\n\n\n"
+                       f"class O:\n    table = d\n\n\nobj = O()\nfor {tgt} in {r}{v}:\n    {b.replace('{R}', r)}\nprint(out, make, obj)\n")
+                out.append(src)
+    out.append("def f(x, y):\n    items = []\n    items.append(x + y)\n    return items\n\n\ng_xs = [1, 2]\n"
+               "for k in dict(zip(g_xs, g_xs)).keys():\n    pass\nprint(f(1, 2))\n")
+    return [s for s in dict.fromkeys(out) if valid(s)]
+
+
+def tiny_family():
+    """every string of length <= 2 over a small alphabet, plus a few 3-character ones: index arithmetic on
+    the ends of the source (source[-1], source[:-1], ...) must not assume a minimum length"""
+    alpha = ["x", "1", " ", "\n", "\r", "\t", "#", "(", '"', ":", "\\", "é"]
+    out = [""] + alpha + [a + b for a in alpha for b in alpha] + ["x\n\n", "\n\nx", "x\r\n", "  x", "x  ", "\n \n"]
+    return list(dict.fromkeys(out))
+
+
 def small_function_family():
     """an enumerated family of small functions: two blocks per body over if/else, loops, returns,
     assignments and calls (all used, so little is deleted)"""
@@ -363,6 +398,8 @@ def build_corpus(tier: str) -> dict[str, list[str]]:
     fam["blank_runs"] = blank_run_family()
     fam["imports"] = import_family()
     fam["resources"] = resource_family()
+    fam["aggregates"] = aggregate_family()
+    fam["tiny"] = tiny_family()
     if tier == "quick":
         fam["functions"] = fam["functions"][::5]
     return fam
